@@ -432,7 +432,10 @@ func c14R4(c *Ctx) {
 			c.check(onTr && isConstIntV(tr)(r.Common().Args[1]), ps.fn+"/reset@transferring", c.ipos(r), "reset only from the transferring status", "reset to standby outside the transferring edge")
 			// and for a reason: with no end marker in the chunk and the chunk not a lone Ctrl-C, no reset is reachable
 			noReason := []assumption{
-				{pred: func(v ssa.Value) bool { call, _ := callOf(v); return call != nil && calleeID(&call.Call) == "bytes.Contains" }, val: false},
+				{pred: func(v ssa.Value) bool {
+					call, _ := callOf(v)
+					return call != nil && calleeID(&call.Call) == "bytes.Contains"
+				}, val: false},
 				{val: false, cmp: func(op token.Token, x, y ssa.Value) (bool, bool) { // len(buf) == 1
 					lc, _ := callOf(x)
 					if (op != token.EQL && op != token.NEQ) || !isConstIntV(1)(y) || lc == nil || calleeID(&lc.Call) != "builtin len" {
@@ -481,7 +484,10 @@ func c14R4(c *Ctx) {
 	c.check(ctrlc, "TrzszRelay.wrapInput/ctrl-c", c.pos(f.Pos()), "a lone Ctrl-C from the client resets the relay", "the client-input pump no longer resets on a lone Ctrl-C")
 	// markers are '#'+type+':' of the types actually used by the ends
 	types_ := map[string]bool{}
-	for _, nm := range []struct{ fn, callee string; idx int }{
+	for _, nm := range []struct {
+		fn, callee string
+		idx        int
+	}{
 		{"trzszTransfer.clientExit", tT + "sendString", 1}, {"trzszTransfer.clientError", tT + "sendString", 1},
 		{"trzszTransfer.serverError", tT + "sendString", 1}, {"TrzszRelay.sendError", "(*trzsz.TrzszRelay).sendStringToClient", 1}, {"TrzszRelay.sendError", "(*trzsz.TrzszRelay).sendStringToServer", 1},
 	} {
@@ -726,7 +732,10 @@ func c14R7(c *Ctx) {
 			}}
 		}
 		conn := func(val bool) assumption {
-			return assumption{pred: func(v ssa.Value) bool { call, _ := callOf(v); return call != nil && isAtomicOnField(call, "tunnelConnected", "Load") }, val: val}
+			return assumption{pred: func(v ssa.Value) bool {
+				call, _ := callOf(v)
+				return call != nil && isAtomicOnField(call, "tunnelConnected", "Load")
+			}, val: val}
 		}
 		for _, tc := range []struct {
 			name   string
